@@ -53,7 +53,8 @@ def raw_guards(ck, P):
         return
     ck.use_fn(fn)
     R = "GUARD/back-raw"
-    nxt, have, put, left = (_local_by_name(fn, n) for n in ("next", "have", "put", "left"))
+    # by role (what initialises the local), falling back to the spelling
+    nxt, have, put, left = (fn.roles.get(n, _local_by_name(fn, n)) for n in ("next", "have", "put", "left"))
     if not ck.anchor("locals next/have/put/left of back()", None not in (nxt, have, put, left), where(fn)):
         return
     # (a) reads through `next`
